@@ -12,7 +12,7 @@
      for every admitted query, fault script and arrival pattern: exactly one reply reaches
      the client's socket, no later than querytimeout + margin; expiry/cancel/capacity
      refusal is a SERVFAIL to that client only; after load stops the server is quiescent. *)
-From Sdns Require Import Common.Base Gen.C11 C11.Model C11.Proofs_Writer C11.Proofs_WG C11.Proofs_Req C11.Proofs_World C11.Proofs_Lazy C11.Stream C11.Proofs_Stream C11.Regroup C11.Proofs_Regroup C11.Proofs_Live C11.Proofs_Quiesce C11.Shutdown C11.Proofs_Shutdown.
+From Sdns Require Import Common.Base Gen.C11 C11.Model C11.Proofs_Writer C11.Proofs_WG C11.Proofs_Req C11.Proofs_World C11.Proofs_Lazy C11.Stream C11.Proofs_Stream C11.Regroup C11.Proofs_Regroup C11.Proofs_Live C11.Proofs_Quiesce C11.Shutdown C11.Proofs_Shutdown C11.Proofs_Dispatch C11.Flights C11.Proofs_Flights.
 
 (* ---- translator ties ---- *)
 Theorem writer_sentinels_consistent :
@@ -311,3 +311,49 @@ Theorem shutdown_loss_only_by_recorded_timeout : forall s evs i,
   In i (d_lost d) -> d_err d = true /\ d_closed d = true /\ d_stop d <> None.
 Proof. exact loss_only_by_recorded_timeout. Qed.
 Print Assumptions shutdown_loss_only_by_recorded_timeout.
+
+(* ---- UDP dispatch is work-conserving and settles (wave 5; Proofs_Dispatch.v) ---- *)
+(* one settle pass: nobody in the world can move and no pool worker idles next to a queued job,
+   whenever the fuel exceeds the queue length *)
+Theorem settle_is_work_conserving : forall fuel s,
+  (length (e_queue (s_e s)) < fuel)%nat -> settled (s_settle fuel s).
+Proof. exact s_settle_settles. Qed.
+Print Assumptions settle_is_work_conserving.
+
+(* every history of the server-level world (any workers / admission cap / path mix; ready queue
+   no deeper than 2 * requests + 1, the settle fuel): settled after every event *)
+Theorem server_always_settled : forall rs paths workers qcap cap evs,
+  Forall (fun q => q_arrived q = false) rs -> (qcap <= 2 * length rs + 1)%nat ->
+  settled (fold_left sevent_step evs (sworld0 rs paths workers qcap cap)).
+Proof. exact server_history_settled. Qed.
+Print Assumptions server_always_settled.
+
+(* ... and with a shutdown anywhere in the history: the closed ready queue keeps being drained *)
+Theorem shutdown_always_settled : forall rs paths workers qcap cap evs,
+  Forall (fun q => q_arrived q = false) rs -> (qcap <= 2 * length rs + 1)%nat ->
+  settled (d_s (drun (dworld0 (sworld0 rs paths workers qcap cap)) evs)).
+Proof. exact shutdown_history_settled. Qed.
+Print Assumptions shutdown_always_settled.
+
+(* ---- capacity slots of groupLookup over several keys (wave 5; Flights.v) ---- *)
+(* the global in-flight pool and the zone quota are never overdrawn, in any history *)
+Theorem capacity_never_overdrawn : forall keys nkeys cap zcap evs,
+  let s := frun (f0 keys nkeys cap zcap) evs in (f_used s <= cap)%nat /\ (f_zused s <= zcap)%nat.
+Proof. exact never_overdrawn. Qed.
+Print Assumptions capacity_never_overdrawn.
+
+(* expired, cancelled or capacity-refused resolution surfaces to that caller only *)
+Theorem refusal_and_expiry_are_own : forall keys nkeys cap zcap evs i,
+  let s := frun (f0 keys nkeys cap zcap) evs in
+  (forall o t, fout_of s i = FErr o t -> o = i) /\ (forall o z t, fout_of s i = FCap o z t -> o = i).
+Proof. exact failures_are_own. Qed.
+Print Assumptions refusal_and_expiry_are_own.
+
+(* no leaked limiter slot: slots held = flights running, so with no flight running none is held
+   (covers the refusal at the zone quota, which must hand the global slot back) *)
+Theorem no_leaked_limiter_slot : forall keys nkeys cap zcap evs,
+  Forall (fun k => (k < nkeys)%nat) keys ->
+  let s := frun (f0 keys nkeys cap zcap) evs in
+  (forall k, flight_on s k = false) -> f_used s = 0%nat /\ f_zused s = 0%nat.
+Proof. exact no_slot_leak. Qed.
+Print Assumptions no_leaked_limiter_slot.
